@@ -261,5 +261,5 @@ def meta(tier):
                     'mixes of re-entrant and delayed frames beyond one re-entrant frame',
                     'protocol PGNs (request, TP.CM, TP.DT, address claim) as application PGNs',
                     'for three nodes the relative order of frames of different senders at the third node'],
-        'assumptions': ['PDU1 PS byte of the reported PGN is not compared (stack reports PS=0 for RTS/CTS and single frames, PS=255 for PDU1 BAM): recorded as an observation'],
+        'assumptions': ['the reported PGN is compared as the whole 18-bit value; a PDU1 PGN has PS = 0 on every transport'],
     }
